@@ -24,7 +24,7 @@ EXPLANATION = (
     "`all.insert(n)` on that edge. (POS) positions stay in a finite universe: every position match_from inserts into a "
     "result set is its own `pos` or `pos + 1` under the guard `pos < hops.len()`."
 )
-EXPLANATION_ADD = " Additions: (FIRST-MATCH) only a non-matching entry continues the ACL scan; (RT-hop-predicate) a parsed predicate with an interface part structurally has an AS part; (PAREN-reset) no recursive parse_expr call inherits the caller's binding power."
+EXPLANATION_ADD = " Additions: (FIRST-MATCH) only a non-matching entry continues the ACL scan; (RT-hop-predicate) a parsed predicate with an interface part structurally has an AS part; (PAREN-reset) no recursive parse_expr call inherits the caller's binding power; (OR-union) both alternation arms are matched on every path through the Or arm of match_from."
 EXPLANATION = EXPLANATION + EXPLANATION_ADD
 RESIDUAL = [
     "hop-pattern language equality with the documented operators (values over all pattern/path pairs); of the ACL first-match clause only the scan structure is decided (FIRST-MATCH), not the predicate semantics",
